@@ -186,6 +186,12 @@ func runCase(c Case) (fails []fail, obs string) {
 		fails = append(fails, fail{sig, what})
 	}
 	obs = r.Class
+	if o.Class == "budget" && r.Class == "runtime-error" && r.Kind == "stack-overflow" {
+		// unbounded recursion: the reference runs out of frames, the implementation may instead reuse the frame
+		// of a self call whose result is discarded (value-preserving, see C16) and never finish: both are
+		// "does not terminate within its resources", nothing to compare
+		return nil, "skip:unbounded-recursion"
+	}
 	if o.Class == "budget" {
 		add("impl-does-not-terminate", "reference terminates ("+r.Class+") but the implementation exceeded "+fmt.Sprint(implBudget)+" VM steps")
 		return fails, obs + "|budget"
